@@ -157,6 +157,10 @@ pub struct Reader {
     pub in_function: bool,
     /// whether the extended-instruction number of the line read last was written as a name
     pub last_ext_symbolic: std::cell::Cell<Option<bool>>,
+    /// numeric types declared ANYWHERE in the module-scope part of the text (pre-pass): the rendering of
+    /// a module-scope OpConstant follows the declared type even when the declaration comes later, while
+    /// the number of words follows the declarations seen so far
+    pub global_types: HashMap<u32, NumTy>,
 }
 
 struct Toks {
@@ -176,12 +180,42 @@ impl Toks {
 
 impl Reader {
     pub fn new() -> Reader {
-        Reader { types: TypeModel::new(), imports: HashMap::new(), in_function: false, last_ext_symbolic: Default::default() }
+        Reader { types: TypeModel::new(), imports: HashMap::new(), in_function: false, last_ext_symbolic: Default::default(), global_types: HashMap::new() }
+    }
+
+    /// Pre-pass over the instruction lines: collects `%n = OpTypeInt w s` / `%n = OpTypeFloat w` of the
+    /// module-scope part.
+    pub fn prescan(&mut self, lines: &[&str]) {
+        for l in lines {
+            let t: Vec<&str> = l.split_whitespace().collect();
+            if t.iter().any(|x| *x == "OpFunction") {
+                break;
+            }
+            if t.len() >= 4 && t[1] == "=" {
+                let id = match t[0].strip_prefix('%').and_then(|n| n.parse::<u32>().ok()) {
+                    Some(i) => i,
+                    None => continue,
+                };
+                match t[2] {
+                    "OpTypeInt" if t.len() >= 5 => {
+                        if let (Ok(w), Ok(sg)) = (t[3].parse::<u32>(), t[4].parse::<u32>()) {
+                            self.global_types.insert(id, NumTy::Int(w, sg == 1));
+                        }
+                    }
+                    "OpTypeFloat" => {
+                        if let Ok(w) = t[3].parse::<u32>() {
+                            self.global_types.insert(id, NumTy::Float(w));
+                        }
+                    }
+                    _ => {}
+                }
+            }
+        }
     }
 
     fn literal_for_type(&self, tok: &str, type_id: u32, typed_format: bool) -> Result<AVal, String> {
         let w = self.types.width(type_id);
-        let ty = self.types.get(type_id);
+        let ty = if typed_format { self.global_types.get(&type_id).copied().or(self.types.get(type_id)) } else { self.types.get(type_id) };
         let bad = || format!("cannot read literal {:?} for type %{} ({:?})", tok, type_id, ty);
         match (w, ty, typed_format) {
             (Width::Unsupported, _, _) | (Width::Ambiguous, _, _) => Err(bad()),
